@@ -488,8 +488,8 @@ def exResult : Result :=
 def exZero : Result := { timestamp := 0, body := some [] }
 
 example : valuePayload .utc exResult =
-    some [255, 128, 1, 2, 97, 98, 1, 3, 1, 200, 1, 15, 1, 0, 0, 0, 14, 214, 240, 7, 0, 0, 0, 0, 123, 255, 255,
-      1, 254, 152, 150, 128, 1, 7, 1, 254, 1, 44, 1, 1, 101, 1, 2, 104, 105, 1, 3, 71, 69, 84, 1, 1, 117,
+    some [255, 128, 1, 2, 97, 98, 1, 3, 1, 255, 200, 1, 15, 1, 0, 0, 0, 14, 214, 240, 7, 0, 0, 0, 0, 123, 255, 255,
+      1, 253, 152, 150, 128, 1, 7, 1, 254, 1, 44, 1, 1, 101, 1, 2, 104, 105, 1, 3, 71, 69, 84, 1, 1, 117,
       1, 2, 1, 75, 2, 1, 97, 2, 98, 99, 1, 76, 0, 0] := by decide
 
 example : valuePayload .utc exZero = some [255, 128, 4, 15, 1, 0, 0, 0, 14, 119, 145, 247, 0, 0, 0, 0, 0, 255, 255, 0] := by
@@ -503,15 +503,15 @@ theorem exResult_repr : ReprGobResult .utc exResult where
     decide
   size := by
     intro p hp
-    have : valuePayload .utc exResult = some [255, 128, 1, 2, 97, 98, 1, 3, 1, 200, 1, 15, 1, 0, 0, 0, 14, 214, 240, 7,
-      0, 0, 0, 0, 123, 255, 255, 1, 254, 152, 150, 128, 1, 7, 1, 254, 1, 44, 1, 1, 101, 1, 2, 104, 105, 1, 3, 71, 69, 84,
+    have : valuePayload .utc exResult = some [255, 128, 1, 2, 97, 98, 1, 3, 1, 255, 200, 1, 15, 1, 0, 0, 0, 14, 214, 240, 7,
+      0, 0, 0, 0, 123, 255, 255, 1, 253, 152, 150, 128, 1, 7, 1, 254, 1, 44, 1, 1, 101, 1, 2, 104, 105, 1, 3, 71, 69, 84,
       1, 1, 117, 1, 2, 1, 75, 2, 1, 97, 2, 98, 99, 1, 76, 0, 0] := by decide
     rw [this] at hp
     cases hp
     decide
 
-example : decValue [255, 128, 1, 2, 97, 98, 1, 3, 1, 200, 1, 15, 1, 0, 0, 0, 14, 214, 240, 7, 0, 0, 0, 0, 123, 255, 255,
-      1, 254, 152, 150, 128, 1, 7, 1, 254, 1, 44, 1, 1, 101, 1, 2, 104, 105, 1, 3, 71, 69, 84, 1, 1, 117,
+example : decValue [255, 128, 1, 2, 97, 98, 1, 3, 1, 255, 200, 1, 15, 1, 0, 0, 0, 14, 214, 240, 7, 0, 0, 0, 0, 123, 255, 255,
+      1, 253, 152, 150, 128, 1, 7, 1, 254, 1, 44, 1, 1, 101, 1, 2, 104, 105, 1, 3, 71, 69, 84, 1, 1, 117,
       1, 2, 1, 75, 2, 1, 97, 2, 98, 99, 1, 76, 0, 0] = some exResult := by decide
 
 example : decValue [255, 128, 4, 15, 1, 0, 0, 0, 14, 119, 145, 247, 0, 0, 0, 0, 0, 255, 255, 0]
@@ -520,9 +520,33 @@ example : decValue [255, 128, 4, 15, 1, 0, 0, 0, 14, 119, 145, 247, 0, 0, 0, 0, 
 example : gobDecoded exZero = { exZero with body := none } := by decide
 example : gobDecoded exResult = exResult := by decide
 
-/-- a two-record stream, decoded whole -/
+-- a two-record stream, decoded whole
+set_option maxRecDepth 20000 in
 example : ∃ s, encodeGobAll .utc [exResult, exZero] = some s ∧
     decodeGob s = ([exResult, { exZero with body := none }], .eof) :=
   ⟨_, rfl, by decide⟩
+
+/-- `gobTerm` when every complete value message decoded: end-of-stream iff the input ends at a message
+boundary and either nothing at all or at least one value message was read -/
+theorem gobTerm_true (fs : List Bytes) (t : FrameRes) :
+    gobTerm fs t true = if t = .eof ∧ (fs = [] ∨ 4 < fs.length) then .eof else .err := by
+  have h4len : preFrames.length = 4 := rfl
+  unfold gobTerm
+  rw [h4len]
+  cases fs <;> cases t <;> simp
+
+-- cut right after the type definitions (no result written, or before the first value message): the frames
+-- end at a boundary (`cutFrames … = (preFrames, eof)`), yet the decoder reports an error (io.ErrUnexpectedEOF)
+set_option maxRecDepth 20000 in
+example : cutFrames preFrames (encodeFrames preFrames).length = (preFrames, .eof) ∧
+    decodeGob ((encodeFrames (preFrames ++ [])).take (encodeFrames preFrames).length) = ([], .err) := by
+  decide
+
+-- the two-record stream cut inside the second value message, and exactly after the first
+set_option maxRecDepth 20000 in
+example : ∃ s, encodeGobAll .utc [exResult, exZero] = some s ∧ s.length = 296 ∧
+    decodeGob (s.take 290) = ([exResult], .err) ∧ decodeGob (s.take 275) = ([exResult], .eof) ∧
+    decodeGob (s.take 274) = ([], .err) ∧ decodeGob (s.take 0) = ([], .eof) :=
+  ⟨_, rfl, by decide, by decide, by decide, by decide, by decide⟩
 
 end Vegeta.Proofs.Gob
